@@ -123,8 +123,8 @@ def judge_sequence(chk, base, seq, res, n_base, ref_trace, replay, findings_avoi
                     if nxt is not None and nxt == first:
                         return bad('line-step-short', 'line step from line %d executed %d instructions and stopped before another instruction of line %d (%s)' % (first, n, first, ref_trace[executed + n][3]), k)
                     if lines != {first}:
-                        frames = [t[4] for t in ref_trace[executed:executed + n + 1]]
-                        key = 'line-step-long|scope-exit' if min(frames) < frames[0] else 'line-step-long'
+                        frames = [t[4] for t in ref_trace[max(0, executed - 1):executed + n + 1]]
+                        key = 'line-step-long|scope-exit' if any(y < x for x, y in zip(frames, frames[1:])) else 'line-step-long'
                         if not (key == 'line-step-long|scope-exit' and chk.known('c19-line-step-runs-into-callers-line')):
                             return bad(key, 'line step from line %d executed instructions of lines %s' % (first, sorted(lines)), k)
                 if a == 'leave_scope' and n > 0 and executed + n < len(ref_trace):
